@@ -121,31 +121,73 @@ let () = iter_lines (fun line ->
              | Stuck -> print_endline "Stuck" | Fuel -> print_endline "Fuel" | Exn -> print_endline "Exn")
         | Stuck -> print_endline "Stuck" | Fuel -> print_endline "Fuel" | Exn -> print_endline "Exn")
      | _ -> print_endline "insert-failed")
-  | "tp4" :: hcs :: l :: l1 :: nrem :: r ->
+  | ("tp4" | "tp4c") :: hcs :: rest0 ->
+    let is_c = (List.hd (words line) = "tp4c") in
+    let (l, l1, l2, budget, nrem, r) =
+      if is_c then (match rest0 with l :: l1 :: l2 :: b :: nrem :: r -> (l, l1, l2, int_of_string b, nrem, r) | _ -> ("0","0","0",-1,"0",[]))
+      else (match rest0 with l :: l1 :: nrem :: r -> (l, l1, "0", -1, nrem, r) | _ -> ("0","0","0",-1,"0",[])) in
     let hc = zi (int_of_string hcs) in
     let (rem, hs) = take (int_of_string nrem) r in
     let tab = Array.of_list (zi 0 :: zs hs) in
     let hash k = let i = int_of_z k in if i >= 0 && i < Array.length tab then tab.(i) else zi 0 in
     let keys = List.init (List.length hs) (fun i -> zi (i + 1)) in
-    let lz = z_of_string l and l1z = z_of_string l1 in
+    let lz = z_of_string l and l1z = z_of_string l1 and l2z = z_of_string l2 in
     let pow2 x = 1 lsl (int_of_string x) in
+    let big = zi 1000000000 in
+    let dump t1 nl calls gens =
+      let buf = Buffer.create 256 in
+      Buffer.add_string buf (Printf.sprintf "calls=%s gens=%d min=%s " (string_of_z calls) gens (string_of_z mm));
+      for i = 0 to pow2 nl - 1 do
+        let b = t1 (zi i) in
+        let c = int_of_z (Gen_P4.pvGetCount b.TableP4.ps) and mpi = int_of_z b.TableP4.pmpi in
+        if c <> 0 || mpi <> int_of_z mm then begin
+          Buffer.add_string buf (Printf.sprintf "%d:%d%s" i mpi (if mpi = 4 then "W" else "w"));
+          for j = 0 to int_of_z hc - 1 do Buffer.add_string buf ("|" ^ string_of_z (b.TableP4.ps (zi j))) done;
+          for j = 0 to c - 1 do Buffer.add_string buf ("," ^ string_of_z (b.TableP4.pky (zi j))) done;
+          Buffer.add_string buf ";" end
+      done;
+      print_endline (Buffer.contents buf) in
     (match TableP4.pinsert_all hc hash (TableP4.pempty_table hc mm) lz keys with
      | Ok t0 ->
        let t0 = List.fold_left (fun t k ->
          match TableP4.plocate_from (nat_of_int (pow2 l)) t (zi 0) (z_of_string k) with
          | Some (b, idx) -> (match TableP4.premove_at hc mm t b idx with Ok t' -> t' | _ -> t)
          | None -> t) t0 rem in
-       (match TableP4.pmigrate hc mm hash t0 lz l1z with
-        | Ok ((_, t1), calls) ->
+       (match TableP4.pmigrate_from_c hc mm hash (nat_of_int (pow2 l)) t0 (TableP4.pempty_table hc mm) lz l1z (zi 0)
+                (if budget < 0 then big else zi budget) (zi 0) with
+        | Ok (((t0', t1), c1), thrown) ->
+          let gens1 = if thrown then 2 else 1 in
+          if int_of_string l2 = 0 then dump t1 l1 c1 gens1
+          else
+            let gens = if thrown then [(t0', lz); (t1, l1z)] else [(t1, l1z)] in
+            (match TableP4.pmigrate_gens hc mm hash gens (TableP4.pempty_table hc mm) l2z big c1 with
+             | Ok (((_, t2), c2), _) -> dump t2 l2 c2 gens1
+             | Stuck -> print_endline "Stuck" | Fuel -> print_endline "Fuel" | Exn -> print_endline "Exn")
+        | Stuck -> print_endline "Stuck" | Fuel -> print_endline "Fuel" | Exn -> print_endline "Exn")
+     | _ -> print_endline "insert-failed")
+  | "tone" :: l :: l1 :: nrem :: r ->
+    let (rem, hs) = take (int_of_string nrem) r in
+    let tab = Array.of_list (zi 0 :: zs hs) in
+    let hash k = let i = int_of_z k in if i >= 0 && i < Array.length tab then tab.(i) else zi 0 in
+    let keys = List.init (List.length hs) (fun i -> zi (i + 1)) in
+    let lz = z_of_string l and l1z = z_of_string l1 in
+    let pow2 x = 1 lsl (int_of_string x) in
+    (match TableOne.oinsert_all hash TableOne.oempty_table lz keys with
+     | Ok t0 ->
+       let t0 = List.fold_left (fun t k ->
+         match TableOne.olocate_from (nat_of_int (pow2 l)) t (zi 0) (z_of_string k) with
+         | Some b -> (match TableOne.oremove_at t b with Ok t' -> t' | _ -> t)
+         | None -> t) t0 rem in
+       (match TableOne.omigrate hash t0 lz l1z with
+        | Ok (_, t1) ->
           let buf = Buffer.create 256 in
-          Buffer.add_string buf (Printf.sprintf "calls=%s min=%s " (string_of_z calls) (string_of_z mm));
+          Buffer.add_string buf "calls=0 ";
           for i = 0 to pow2 l1 - 1 do
             let b = t1 (zi i) in
-            let c = int_of_z (Gen_P4.pvGetCount b.TableP4.ps) and mpi = int_of_z b.TableP4.pmpi in
-            if c <> 0 || mpi <> int_of_z mm then begin
-              Buffer.add_string buf (Printf.sprintf "%d:%d%s" i mpi (if mpi = 4 then "W" else "w"));
-              for j = 0 to int_of_z hc - 1 do Buffer.add_string buf ("|" ^ string_of_z (b.TableP4.ps (zi j))) done;
-              for j = 0 to c - 1 do Buffer.add_string buf ("," ^ string_of_z (b.TableP4.pky (zi j))) done;
+            let st = b.TableOne.ost in
+            if int_of_z (Gen_One.coq_WasFull st |> fun x -> if x then zi 1 else zi 0) = 1 then begin
+              Buffer.add_string buf (Printf.sprintf "%d:%sW" i (string_of_z st));
+              if Gen_One.coq_IsFull st then Buffer.add_string buf ("," ^ string_of_z b.TableOne.oky);
               Buffer.add_string buf ";" end
           done;
           print_endline (Buffer.contents buf)
